@@ -85,9 +85,11 @@ def check_post(F, Q, dt, result, obs, use_mp):
         # state with the function under test, so an answer that belongs to other inputs (memo, stale reference) shows at once
         from scipy.linalg import expm
         Hm = np.zeros((2 * n, 2 * n))
-        Hm[:n, :n], Hm[:n, n:], Hm[n:, n:] = F, Q, -F.T
+        # (Q normalised to unit size: the exponential of a matrix whose blocks differ by 20 decades loses the small block's relative accuracy)
+        qs = float(np.abs(Q).max()) or 1.0
+        Hm[:n, :n], Hm[:n, n:], Hm[n:, n:] = F, Q / qs, -F.T
         E = expm(Hm * dt)
-        Pr, Qr = E[:n, :n], E[:n, n:] @ E[:n, :n].T
+        Pr, Qr = E[:n, :n], E[:n, n:] @ E[:n, :n].T * qs
         obs['float_route_compared'] = obs.get('float_route_compared', 0) + 1
         eP = np.abs(Phi - Pr).max()
         eQ = np.abs(Qd - Qr).max()
